@@ -223,18 +223,19 @@ func legalResponse(req, resp byte) bool {
 // scheduler-visible. With Split, ReadAt/WriteAt have separate enter and exit points so that
 // overlap with Close is observable.
 type vfile struct {
-	h        *vhandler
-	name     string
-	data     []byte
-	Split    bool
-	inflight int
-	Closes   int
-	TErrs    int
-	Reads    int
-	WritesN  int
-	Bad      []string
-	FailAt   int64 // offset whose read/write fails (-1 none)
-	noClose  bool
+	h            *vhandler
+	name         string
+	data         []byte
+	Split        bool
+	inflight     int
+	Closes       int
+	TErrs        int
+	Reads        int
+	WritesN      int
+	Bad          []string
+	FailAt       int64 // offset whose read/write fails (-1 none)
+	PartialReads int   // that many ReadAt calls deliver only the first half of what exists and a transient (non-EOF) error
+	noClose      bool
 }
 
 func (f *vfile) note(s string) { f.Bad = append(f.Bad, s) }
@@ -256,6 +257,11 @@ func (f *vfile) ReadAt(b []byte, off int64) (int, error) {
 	}
 	if off >= int64(len(f.data)) {
 		return 0, io.EOF
+	}
+	if f.PartialReads > 0 && len(b) > 1 {
+		f.PartialReads--
+		n := copy(b[:len(b)/2], f.data[off:])
+		return n, errors.New("transient read error")
 	}
 	n := copy(b, f.data[off:])
 	if n < len(b) {
